@@ -118,3 +118,29 @@ MODULES += [
      "needs_globals": True, "roots": _ext_wrap_roots,
      "vregion_regs": 3},      # every vector-region parameter of this module is a planar cubic-extension operand (3 registers)
 ]
+
+
+# ---------------------------------------------------------------- extended-translator modules ("ext": True)
+# Functions outside the basic subset (while loops, early exits, process-ending calls, OpenMP loops, run-time sized
+# arrays): translated by the extended mode of tr_cxx.py.  Partial functions take `fuel` and return Option; their
+# dispatch entries go to Driver/GenDispatchP.lean.  Bridge theorems: Lemmas/Bridge*.lean.
+TRRT = "GoldilocksVerif.Model.TrRt"
+MODULES += [
+    {"name": "InvGen", "ns": "Gen.InvGen", "ext": True,
+     "imports": ["GoldilocksVerif.Isa.X86", "GoldilocksVerif.Model.Region", TRRT, "GoldilocksVerif.Gen.Scalar"],
+     "roots": [("Goldilocks", n) for n in ["inv", "div", "exp"]]},
+    {"name": "ExtInvGen", "ns": "Gen.ExtInvGen", "ext": True,
+     "imports": ["GoldilocksVerif.Isa.X86", "GoldilocksVerif.Model.Region", TRRT, "GoldilocksVerif.Gen.Scalar",
+                 "GoldilocksVerif.Gen.Ext", "GoldilocksVerif.Gen.InvGen"],
+     "roots": [("Goldilocks3", n) for n in ["inv", "div", "batchInverse"]]},
+    {"name": "LinearHashGen", "ns": "Gen.LinearHashGen", "ext": True, "needs_globals": True,
+     "imports": POS_IMPORTS + ["GoldilocksVerif.Gen.PosConsts", "GoldilocksVerif.Gen.PosScalar", "GoldilocksVerif.Gen.PosAvx2",
+                               "GoldilocksVerif.Gen.PosAvx512", TRRT],
+     "roots": [("PoseidonGoldilocks", n) for n in ["linear_hash_seq", "linear_hash", "linear_hash_avx512"]]},
+    {"name": "MerkleGen", "ns": "Gen.MerkleGen", "ext": True, "needs_globals": True,
+     "imports": POS_IMPORTS + ["GoldilocksVerif.Gen.PosConsts", "GoldilocksVerif.Gen.PosScalar", "GoldilocksVerif.Gen.PosAvx2",
+                               "GoldilocksVerif.Gen.PosAvx512", TRRT, "GoldilocksVerif.Gen.LinearHashGen"],
+     "roots": [("PoseidonGoldilocks", n) for n in ["merkletree_seq", "merkletree_avx", "merkletree_avx512", "merkletree_batch_seq",
+                                                   "merkletree_batch_avx", "merkletree_batch_avx512", "merkletree",
+                                                   "merkletree_batch"]]},
+]
